@@ -24,3 +24,8 @@ func (p *Pool) VerifRegistered(h *Handle) bool {
 	defer p.mu.Unlock()
 	return h != nil && h.elem != nil
 }
+
+// VerifMutex returns the address of p.mu (as any: the harness builds this
+// package with the import of "sync" redirected to a scheduling shim, so the
+// static type differs between builds).
+func (p *Pool) VerifMutex() any { return &p.mu }
